@@ -90,13 +90,13 @@ static void stage_forms(Run &R) {
     uint64_t idx = 0, total = 0;
     static const char *LS[] = {"a", "a.b", "\"q q\"", "\xD0\x96", "a..b", "", "\"open", "a b"};
     static const char *DS[] = {"b.com", "sub.example.org", "x.zzunlisted", "single", "x.abarth", "[1.2.3.4]", "[IPv6:::1]", "[IPv6:1:2:3:4:5:6:7:8]", "[2001:db8::1]", "[IPv6:::ffff:1.2.3.4]", "[1.2.3]", "[1.2.3.4]x",
-                               "[0.1.2.3]", "-b.com", "b..com", "\xD0\xBF\xD0\xBE\xD1\x87\xD1\x82\xD0\xB0.\xD1\x80\xD1\x84", "xn--p1ai.com", "\xE2\x99\xA5.com", "1.2.3.4", "b.com.", "[IPv6:1::2:3:4:5:6:7]", "localhost", "A.B.C.D.E.RU"};
+                               "[0.1.2.3]", "-b.com", "b..com", "\xD0\xBF\xD0\xBE\xD1\x87\xD1\x82\xD0\xB0.\xD1\x80\xD1\x84", "xn--p1ai.com", "\xE2\x99\xA5.com", "1.2.3.4", "b.com.", "[IPv6:1::2:3:4:5:6:7]", "localhost", "A.B.C.D.E.RU", "example.com.", "host.localhost.", "www.test.", "EXAMPLE.ORG.", "x.onion.", "localhost.", "a.ru."};
     for (const char *l : LS) for (const char *d : DS) for (int mask : {KD->default_mask(), 0, 0x7ff}) { total++; if ((int) (idx++ % R.a.nworkers) != R.a.worker) continue; if (!run_one(R, Bytes(l) + "@" + d, mask)) return; }
     { std::vector<Bytes> longd = gen::idn_mapped_shapes("a", "com");
       for (uint32_t unit : {0x3042u, 0x436u}) for (int nl : {2, 3, 4, 5}) for (int n : {30, 40, 42}) { Bytes d; for (int k = 0; k < nl; k++) { for (int i = 0; i < n; i++) d += ref::utf8_encode(unit + (i + k) % 16); d += '.'; } longd.push_back(d + "com"); }
       for (const Bytes &d : gen::mapped_names()) longd.push_back(d);
       for (const Bytes &d : longd) { total++; if ((int) (idx++ % R.a.nworkers) != R.a.worker) continue; if (!run_one(R, "u@" + d, KD->default_mask())) return; } }
-    R.space("C16 8 local-part forms x 23 domain forms x 3 masks; long IDN domains (UTF-8 spelling 120-1300 octets), IDNA-mapped spellings", total);
+    R.space("C16 8 local-part forms x 30 domain forms x 3 masks; long IDN domains (UTF-8 spelling 120-1300 octets), IDNA-mapped spellings", total);
 }
 static void stage_random(Run &R) {
     rc_run(R, "C16 result record rules on generated addresses", 4.0, [&](Src &s) -> std::optional<Failure> {
